@@ -65,10 +65,10 @@ def addAltOk (S : List Elem) (x : Elem) : Bool :=
 def checkAddAlt (U : List Elem) : Bool :=
   (subsets U).all fun S => decide (S.length ≥ 8) || U.all fun x => addAltOk S x
 
-/-- the subsets of `U` are closed under inserting and erasing elements of `U`, and are canonical -/
+/-- the subsets of `U` are closed under inserting and erasing elements of `U` -/
 def checkClosed (U : List Elem) : Bool :=
-  (subsets U).all fun S => decide (S.length ≥ 8) || (decide (Canon 3 S) &&
-    U.all fun x => (subsets U).contains (insert x S) && (subsets U).contains (erase x S))
+  (subsets U).all fun S => decide (S.length ≥ 8) ||
+    U.all fun x => (subsets U).contains (insert x S) && (subsets U).contains (erase x S)
 
 theorem okEq_iff (r : R QF) (t : QF) : okEq r t = true ↔ r = .ok t := by
   cases r with
@@ -88,16 +88,11 @@ theorem all_sub {U : List Elem} {f : List Elem → Elem → Bool}
 
 theorem closed_sub {U : List Elem} (h : checkClosed U = true) {S : List Elem} (hS : S ∈ subsets U)
     (hl : S.length < 8) {x : Elem} (hx : x ∈ U) :
-    Canon 3 S ∧ insert x S ∈ subsets U ∧ erase x S ∈ subsets U := by
-  unfold checkClosed at h
-  rw [List.all_eq_true] at h
-  have := h S hS
-  rw [Bool.or_eq_true, decide_eq_true_eq, Bool.and_eq_true, decide_eq_true_eq, List.all_eq_true] at this
-  rcases this with h1 | ⟨h1, h2⟩
-  · omega
-  · have := h2 x hx
-    rw [Bool.and_eq_true, List.contains_iff_mem, List.contains_iff_mem] at this
-    exact ⟨h1, this.1, this.2⟩
+    insert x S ∈ subsets U ∧ erase x S ∈ subsets U := by
+  have := all_sub (f := fun S x => (subsets U).contains (insert x S) && (subsets U).contains (erase x S))
+    h hS hl hx
+  rw [Bool.and_eq_true, List.contains_iff_mem, List.contains_iff_mem] at this
+  exact this
 
 /-- universe A: a run of three at quotient 0, a run wrapping round the end of the table;
     its 7-element subset fills the table up to the one slot that stays empty -/
